@@ -2,6 +2,8 @@
 
 package serf
 
+import "net"
+
 // C10: restart from a snapshot restores the rejoin set and clocks exactly.
 //
 // History induction: replay is a left fold over the file's lines and compaction
@@ -30,8 +32,8 @@ package serf
 //vf:stub file system -> in-memory model (process-crash semantics: written bytes durable, bufio content volatile); bufio executed for real
 //vf:unwind 40
 //vf:paths quick=800000 thorough=8000000
-//vf:bound state 0..2 alive nodes with symbolic 1-byte names (quick) and 2 fixed addresses, symbolic 64-bit clocks, symbolic compaction threshold and flush timing; step: join (1 member, name symbolic) | leave | failed | user event | query | clock tick, all Lamport times symbolic
-//vf:outside real file-system behaviour; lines longer than the bufio buffer (4096); names longer than 1 byte; decimal digit codec (trusted)
+//vf:bound state 0..2 alive nodes with symbolic 1-byte names (quick) and 2 fixed addresses, symbolic 64-bit clocks, symbolic compaction threshold and flush timing; step: join (1 member, name of quick=1 thorough=2 symbolic bytes, thorough: IPv4 or IPv6 address) | leave | failed | user event | query | clock tick, all Lamport times symbolic
+//vf:outside real file-system behaviour; lines longer than the bufio buffer (4096); names longer than 2 bytes; decimal digit codec (trusted)
 //vf:nonative
 func VfC10_Step() {
 	vfFSReset()
@@ -40,10 +42,20 @@ func VfC10_Step() {
 	vfAssume(c >= 1) // Create starts every clock at 1
 	clock.counter.Store(c)
 	s := vfSnapArbitrary(&clock, false)
-	name := string(vfFixedBytes("evname", 1))
+	name := string(vfFixedBytes("evname", 1+vfTier()))
+	addr := vfAddrs[1]
+	if vfTier() == 1 {
+		// thorough: 2-byte names (leading / trailing / only spaces ...) and an IPv6 address for the joining member
+		for i := 0; i < len(name); i++ {
+			vfAssume(name[i] != '\n') // C10's recorded finding (newline in a name) is reported by the 1-byte state names
+		}
+		if vfBool("v6") {
+			addr = net.IP{0x20, 0x01, 0x0d, 0xb8, 0, 0, 0, 0, 0, 0, 0, 0, 0, 0, 0, 1}
+		}
+	}
 	switch vfChoice("step", 6) {
 	case 0:
-		s.processMemberEvent(MemberEvent{Type: EventMemberJoin, Members: []Member{{Name: name, Addr: vfAddrs[1], Port: 7946}}})
+		s.processMemberEvent(MemberEvent{Type: EventMemberJoin, Members: []Member{{Name: name, Addr: addr, Port: 7946}}})
 	case 1:
 		s.processMemberEvent(MemberEvent{Type: EventMemberLeave, Members: []Member{{Name: name}}})
 	case 2:
